@@ -327,13 +327,13 @@ def parse_expr_subscript(stream: TokenStream) -> Expr:
     return expr
 
 
-NUMBER_REGEX = re.compile(r"\D")
+NUMBER_REGEX = re.compile(r"[^0-9]")
 
 
 def parse_num(stream: TokenStream) -> int:
     next = stream.next()
     assert next is not None
-    if NUMBER_REGEX.match(next):
+    if NUMBER_REGEX.search(next):
         stream.err(f'Expected number, got "{next}"')
     result = int(next)
     stream.pos += 1
